@@ -149,6 +149,96 @@ Section Hunks.
       destruct (arr_update_ok2 T _ _ _ _ _ _ _ E1 Ht Hv Hok) as [Hok1 Hv1]. eapply IH; eauto.
   Qed.
 
+  (* ---------- which tick keys the global history gains ---------- *)
+  Definition KR (flag : bool) (s s' : shared) : Prop :=
+    (is_mark t = true -> s_gh s' = s_gh s) /\
+    (is_mark t = false -> forall x, In x (keys (s_gh s')) <-> In x (keys (s_gh s)) \/ (flag = true /\ x = tp cf t)).
+
+  Lemma KR_refl s : KR false s s.
+  Proof. split; [reflexivity|]. intros _ x. split; [auto|]. intros [H|[H _]]; [auto|discriminate]. Qed.
+
+  Lemma KR_trans f1 f2 s s1 s2 : KR f1 s s1 -> KR f2 s1 s2 -> KR (f1 || f2) s s2.
+  Proof.
+    intros [A1 A2] [B1 B2]. split.
+    - intros Hm. rewrite B1, A1; auto.
+    - intros Hm x. rewrite (B2 Hm), (A2 Hm). destruct f1, f2; cbn [orb]; intuition (auto; discriminate).
+  Qed.
+
+  Lemma KR_ext f1 f2 s s' : f1 = f2 -> KR f1 s s' -> KR f2 s s'.
+  Proof. intros ->. auto. Qed.
+
+  Definition nomarks (vals : list Z) : Prop := is_mark t = false -> forall v, In v vals -> is_mark v = false.
+
+  Lemma update_time_KR hd s cur prev d s' : update_time cf hd s cur prev d = Ok s' -> cur = t ->
+    (is_mark t = false -> is_mark prev = false) -> KR true s s'.
+  Proof.
+    intros E -> Hp. destruct (update_time_cases _ _ _ _ _ _ _ E) as [(E1 & ->)|[(E1 & E2 & ->)|(E1 & E2 & E3)]].
+    - split; [reflexivity|]. intros Hm. rewrite (Hp Hm) in E1. discriminate.
+    - split; [reflexivity|]. intros Hm. congruence.
+    - split; [intros Hm; congruence|]. intros _ x. rewrite E3, keys_sp_add. intuition.
+  Qed.
+
+  Lemma report_deleted_KR hd vs : nomarks vs -> forall s s', report_deleted cf hd s t vs = Ok s' ->
+    KR (match vs with [] => false | _ => true end) s s'.
+  Proof.
+    intros Hn. induction vs as [|v r IH]; intros s s' E; cbn [report_deleted] in E.
+    - injection E as <-. apply KR_refl.
+    - destruct (update_time cf hd s t v (-1)) as [s1| |] eqn:E1; try discriminate.
+      assert (K1 : KR true s s1).
+      { eapply update_time_KR; eauto. intros Hm. apply Hn; auto. left; auto. }
+      assert (K2 := IH (fun Hm x Hx => Hn Hm x (or_intror Hx)) _ _ E).
+      pose proof (KR_trans _ _ _ _ _ K1 K2) as K. cbn [orb] in K. exact K.
+  Qed.
+
+  Lemma arr_update_KR f s pos ins del f' s' : arr_update cf f s t pos ins del = Ok (f', s') -> nomarks (f_vals f) ->
+    KR ((0 <? ins) || (0 <? del)) s s' /\ nomarks (f_vals f').
+  Proof.
+    intros E Hn. split.
+    - unfold arr_update in E.
+      destruct ((pos <? 0) || (ins <? 0) || (del <? 0)) eqn:Eg; [discriminate|].
+      apply orb_false_iff in Eg. destruct Eg as [Eg Eg3]. apply orb_false_iff in Eg. destruct Eg as [Eg1 Eg2].
+      destruct ((ins =? 0) && (del =? 0)) eqn:Ez.
+      { injection E as <- <-. apply andb_prop in Ez. destruct Ez as [Ez1 Ez2].
+        assert (ins = 0) by lia. assert (del = 0) by lia. subst. apply KR_refl. }
+      destruct ((Z.of_nat (length (f_vals f)) <? pos) || (Z.of_nat (length (f_vals f)) <? pos + del)) eqn:El; [discriminate|].
+      apply orb_false_iff in El. destruct El as [El1 El2].
+      set (r1 := if 0 <? ins then update_time cf (f_hist f) s t t ins else Ok s) in *.
+      destruct r1 as [s1| |] eqn:E1; try discriminate.
+      set (dead := firstn (Z.to_nat del) (skipn (Z.to_nat pos) (f_vals f))) in *.
+      destruct (report_deleted cf (f_hist f) s1 t dead) as [s2| |] eqn:E2; try discriminate.
+      injection E as _ <-.
+      assert (K1 : KR (0 <? ins) s s1).
+      { unfold r1 in E1. destruct (0 <? ins); [|injection E1 as <-; apply KR_refl].
+        eapply update_time_KR; eauto. }
+      assert (Hnd : nomarks dead).
+      { intros Hm v Hv. apply Hn; auto. unfold dead in Hv. apply In_firstn in Hv. eapply In_skipn'; eauto. }
+      pose proof (report_deleted_KR _ dead Hnd _ _ E2) as K2.
+      assert (Ed : (match dead with [] => false | _ => true end) = (0 <? del)).
+      { assert (Z.of_nat (length dead) = del) by (unfold dead; rewrite firstn_length, skipn_length; lia).
+        destruct dead; cbn [length] in H; destruct (Z.ltb_spec 0 del); auto; lia. }
+      rewrite Ed in K2. eapply KR_trans; eauto.
+    - intros Hm v Hin.
+      destruct (arr_update_spec cf _ _ _ _ _ _ _ _ E) as [(_ & _ & -> & _)|(A0 & dead & B & F1 & F2 & _)]; [apply Hn; auto|].
+      rewrite F2 in Hin. apply in_app_or in Hin. destruct Hin as [Hin|Hin].
+      + apply Hn; auto. rewrite F1. apply in_or_app; auto.
+      + apply in_app_or in Hin. destruct Hin as [Hin|Hin].
+        * apply repeat_spec in Hin. subst v. exact Hm.
+        * apply Hn; auto. rewrite F1. apply in_or_app; right; apply in_or_app; auto.
+  Qed.
+
+  Definition tflag (ts : list (Z * Z * Z)) : bool :=
+    existsb (fun kdi => (0 <? snd kdi) || (0 <? snd (fst kdi))) ts.
+
+  Lemma run_hunks_KR : forall ts pos f s f' s', run_hunks ts pos f s = Ok (f', s') -> nomarks (f_vals f) ->
+    KR (tflag ts) s s'.
+  Proof.
+    induction ts as [|[[k d] i] ts IH]; intros pos f s f' s' E Hn; cbn [run_hunks] in E.
+    - injection E as _ <-. apply KR_refl.
+    - destruct (arr_update cf f s t (pos + k) i d) as [[f1 s1]| |] eqn:E1; try discriminate.
+      destruct (arr_update_KR _ _ _ _ _ _ _ E1 Hn) as [K1 Hn1].
+      cbn [tflag existsb fst snd]. eapply KR_trans; eauto.
+  Qed.
+
   (* ---------- piece B ---------- *)
   Variables o n : line -> bool.
   Variable ov : line -> Z.                     (* the value an old line carries *)
@@ -181,6 +271,26 @@ Section Hunks.
 
   Lemma repeat_snoc {A} (x : A) m : repeat x (S m) = repeat x m ++ [x].
   Proof. induction m as [|m IH]; [reflexivity|]. cbn [repeat app] in *. rewrite <- IH. reflexivity. Qed.
+
+  Lemma tflag_hunks3 : forall r k d i, 0 <= d -> 0 <= i ->
+    tflag (hunks3 o n r k d i) = (0 <? d + i + cntI r + Z.of_nat (length (deadv r))).
+  Proof.
+    induction r as [|l r IH]; intros k d i Hd Hi; cbn [hunks3].
+    - unfold tflag, cntI, deadv. cbn [existsb fst snd filter map length count]. rewrite orb_false_r.
+      change (count (fun l => negb (o l) && n l) []) with 0.
+      destruct (Z.ltb_spec 0 i), (Z.ltb_spec 0 d), (Z.ltb_spec 0 (d + i + 0 + Z.of_nat 0)); cbn [orb]; auto; lia.
+    - assert (Hc : 0 <= cntI r) by apply count_nonneg.
+      unfold cntI, deadv in *. rewrite count_cons. cbn [filter].
+      destruct (o l) eqn:Eo, (n l) eqn:En; cbn [andb negb map length].
+      + destruct (Z.ltb_spec 0 (d + i)) as [Hdi|Hdi].
+        * unfold tflag. cbn [existsb fst snd]. fold (tflag (hunks3 o n r 1 0 0)).
+          destruct (Z.ltb_spec 0 i), (Z.ltb_spec 0 d); cbn [orb]; try lia;
+          symmetry; apply Z.ltb_lt; lia.
+        * assert (d = 0) by lia. assert (i = 0) by lia. subst. rewrite IH by lia. reflexivity.
+      + rewrite IH by lia. f_equal. cbn [length]. lia.
+      + rewrite IH by lia. f_equal. lia.
+      + rewrite IH by lia. reflexivity.
+  Qed.
 
   Ltac fin := repeat match goal with |- context [eff cf ?P t t (?a + ?b)] => rewrite <- (eff_add P a b) end;
               rewrite ?eff_0, ?effs_app; try lia.
